@@ -75,7 +75,9 @@ CONSTANTS ProcSeq,     \* updater goroutines, as a sequence (fixes the launch or
           LockDel,     \* referrerDelete takes muRefTag     (code: FALSE)
           LockDelEarly,\* ... and takes it before cacheRL.Delete
           CowIndex,    \* Add/Delete build a new object     (code: FALSE)
-          ObsFilters   \* the queries the lister may issue (a subset of Filters)
+          ObsFilters,  \* the queries the lister may issue (a subset of Filters)
+          ListConc     \* TRUE: ReferrerList may also run while calls are in flight (beyond the
+                       \* statement's quantifier; its own result is then not judged)
 
 Procs == {ProcSeq[i] : i \in 1..Len(ProcSeq)}
 PIdx(p) == CHOOSE i \in 1..Len(ProcSeq) : ProcSeq[i] = p
@@ -84,14 +86,14 @@ VARIABLES conf,
           srvMan, srvTag, srvIdx,                 \* registry / layout
           feat, cacheRL, cacheArt, cacheIdx, mu,  \* client (reg.Reg)
           pc, op, obj,                            \* updater goroutines
-          lpc, lq, lacc, lcur,                    \* the lister
+          lpc, lq, lacc, lcur, lconc,             \* the lister
           phase, left,                            \* history control
           out                                     \* observable event of the last step
 dvars == <<conf, srvMan, srvTag, srvIdx, feat, cacheRL, cacheArt, cacheIdx, mu,
-           pc, op, obj, lpc, lq, lacc, lcur, phase, left, out>>
+           pc, op, obj, lpc, lq, lacc, lcur, lconc, phase, left, out>>
 \* everything except `out` (which no action reads): the VIEW of the model-checking configs
 dview == <<conf, srvMan, srvTag, srvIdx, feat, cacheRL, cacheArt, cacheIdx, mu,
-           pc, op, obj, lpc, lq, lacc, lcur, phase, left>>
+           pc, op, obj, lpc, lq, lacc, lcur, lconc, phase, left>>
 
 NoTag == [k |-> "none", v |-> <<>>]
 IdxTag(v) == [k |-> "idx", v |-> v]
@@ -126,7 +128,7 @@ Init ==
   /\ feat = "unknown" /\ cacheRL = [s \in Subj |-> NoList] /\ cacheArt = {} /\ cacheIdx = <<>>
   /\ mu = ""
   /\ pc = [p \in Procs |-> "idle"] /\ op = [p \in Procs |-> NoOp] /\ obj = [p \in Procs |-> NoObj]
-  /\ lpc = "idle" /\ lq = [s |-> "s1", f |-> "none"] /\ lacc = <<>> /\ lcur = 0
+  /\ lpc = "idle" /\ lq = [s |-> "s1", f |-> "none"] /\ lacc = <<>> /\ lcur = 0 /\ lconc = FALSE
   /\ phase = "run" /\ left = MaxOps
   /\ out = Quiet
 
@@ -145,7 +147,8 @@ Held(p) == mu = p
 
 \* ---------------------------------------------------------------- launching
 Launch(p, k, a) ==
-  /\ left > 0 /\ lpc = "idle"
+  /\ left > 0 /\ (lpc = "idle" \/ ListConc)
+  /\ lconc' = (lconc \/ lpc # "idle")
   /\ Idle(p) /\ \A q \in Procs : Idle(q) => PIdx(p) <= PIdx(q)
   /\ Cardinality(Running) < MaxConc
   /\ SameSubject => \A q \in Running : S(q) = conf.subj[a]
@@ -161,13 +164,13 @@ PPutRq(p) ==
   /\ pc[p] = "p_put_rq"
   /\ srvMan' = srvMan \cup {A(p)}
   /\ Goto(p, "p_cman") /\ Silent
-  /\ UNCHANGED <<conf, srvTag, srvIdx, feat, cacheRL, cacheArt, cacheIdx, mu, op, obj, lpc, lq, lacc, lcur, phase, left>>
+  /\ UNCHANGED <<conf, srvTag, srvIdx, feat, cacheRL, cacheArt, cacheIdx, mu, op, obj, lpc, lq, lacc, lcur, lconc, phase, left>>
 
 PCMan(p) ==
   /\ pc[p] = "p_cman"
   /\ cacheArt' = IF Cache THEN cacheArt \cup {A(p)} ELSE cacheArt
   /\ Goto(p, "p_crl") /\ Silent
-  /\ UNCHANGED <<conf, srvMan, srvTag, srvIdx, feat, cacheRL, cacheIdx, mu, op, obj, lpc, lq, lacc, lcur, phase, left>>
+  /\ UNCHANGED <<conf, srvMan, srvTag, srvIdx, feat, cacheRL, cacheIdx, mu, op, obj, lpc, lq, lacc, lcur, lconc, phase, left>>
 
 PCRL(p) ==
   /\ pc[p] = "p_crl"
@@ -175,13 +178,13 @@ PCRL(p) ==
   /\ IF conf.mode = "api"
      THEN Finish(p, "ok", cacheIdx, <<>>)
      ELSE Goto(p, "p_lock") /\ Silent /\ UNCHANGED <<cacheIdx, obj>>
-  /\ UNCHANGED <<conf, srvMan, srvTag, srvIdx, feat, cacheArt, mu, op, lpc, lq, lacc, lcur, phase, left>>
+  /\ UNCHANGED <<conf, srvMan, srvTag, srvIdx, feat, cacheArt, mu, op, lpc, lq, lacc, lcur, lconc, phase, left>>
 
 PLock(p) ==
   /\ pc[p] = "p_lock"
   /\ IF LockPut THEN mu = "" /\ mu' = p ELSE UNCHANGED mu
   /\ Goto(p, "p_get_rq") /\ Silent
-  /\ UNCHANGED <<conf, srvMan, srvTag, srvIdx, feat, cacheRL, cacheArt, cacheIdx, op, obj, lpc, lq, lacc, lcur, phase, left>>
+  /\ UNCHANGED <<conf, srvMan, srvTag, srvIdx, feat, cacheRL, cacheArt, cacheIdx, op, obj, lpc, lq, lacc, lcur, lconc, phase, left>>
 
 \* ManifestGet(tag) caches the fetched object under its digest, then Add mutates it
 AddTo(v, a) == IF a \in Range(v) THEN v ELSE Append(v, a)
@@ -201,33 +204,33 @@ PGetRq(p) ==
        [] OTHER -> \* the tag holds TagDelete's dummy image: "manifest is not an OCI index"
             /\ Unlock(p)
             /\ Finish(p, "err", cacheIdx, <<>>)
-  /\ UNCHANGED <<conf, srvMan, srvTag, srvIdx, feat, cacheRL, cacheArt, op, lpc, lq, lacc, lcur, phase, left>>
+  /\ UNCHANGED <<conf, srvMan, srvTag, srvIdx, feat, cacheRL, cacheArt, op, lpc, lq, lacc, lcur, lconc, phase, left>>
 
 PPutTagRq(p) ==
   /\ pc[p] = "p_puttag_rq"
   /\ srvTag' = [srvTag EXCEPT ![S(p)] = IdxTag(obj[p].v)]
   /\ srvIdx' = srvIdx \cup {obj[p].v}
   /\ Goto(p, "p_cman2") /\ Silent
-  /\ UNCHANGED <<conf, srvMan, feat, cacheRL, cacheArt, cacheIdx, mu, op, obj, lpc, lq, lacc, lcur, phase, left>>
+  /\ UNCHANGED <<conf, srvMan, feat, cacheRL, cacheArt, cacheIdx, mu, op, obj, lpc, lq, lacc, lcur, lconc, phase, left>>
 
 PCMan2(p) ==
   /\ pc[p] = "p_cman2"
   /\ cacheIdx' = IF Cache THEN Upd(cacheIdx, obj[p].v, RefEnt(p)) ELSE cacheIdx
   /\ Goto(p, "p_crl2") /\ Silent
-  /\ UNCHANGED <<conf, srvMan, srvTag, srvIdx, feat, cacheRL, cacheArt, mu, op, obj, lpc, lq, lacc, lcur, phase, left>>
+  /\ UNCHANGED <<conf, srvMan, srvTag, srvIdx, feat, cacheRL, cacheArt, mu, op, obj, lpc, lq, lacc, lcur, lconc, phase, left>>
 
 PCRL2(p) ==
   /\ pc[p] = "p_crl2"
   /\ cacheRL' = IF Cache THEN [cacheRL EXCEPT ![S(p)] = AList(obj[p].v)] ELSE cacheRL
   /\ Unlock(p)
   /\ Finish(p, "ok", cacheIdx, obj[p].v)
-  /\ UNCHANGED <<conf, srvMan, srvTag, srvIdx, feat, cacheArt, op, lpc, lq, lacc, lcur, phase, left>>
+  /\ UNCHANGED <<conf, srvMan, srvTag, srvIdx, feat, cacheArt, op, lpc, lq, lacc, lcur, lconc, phase, left>>
 
 \* --------------------------------------- reg: ManifestDelete + referrerDelete
 DGet(p) ==
   /\ pc[p] = "d_get"
   /\ Goto(p, IF Cache /\ A(p) \in cacheArt THEN (IF LockDel /\ LockDelEarly THEN "d_lock" ELSE "d_crl") ELSE "d_get_rq") /\ Silent
-  /\ UNCHANGED <<conf, srvMan, srvTag, srvIdx, feat, cacheRL, cacheArt, cacheIdx, mu, op, obj, lpc, lq, lacc, lcur, phase, left>>
+  /\ UNCHANGED <<conf, srvMan, srvTag, srvIdx, feat, cacheRL, cacheArt, cacheIdx, mu, op, obj, lpc, lq, lacc, lcur, lconc, phase, left>>
 
 DGetRq(p) ==
   /\ pc[p] = "d_get_rq"
@@ -237,32 +240,32 @@ DGetRq(p) ==
           /\ UNCHANGED <<cacheIdx, obj>>
      ELSE /\ Finish(p, "err", cacheIdx, <<>>)     \* failed to pull manifest for refers
           /\ UNCHANGED cacheArt
-  /\ UNCHANGED <<conf, srvMan, srvTag, srvIdx, feat, cacheRL, mu, op, lpc, lq, lacc, lcur, phase, left>>
+  /\ UNCHANGED <<conf, srvMan, srvTag, srvIdx, feat, cacheRL, mu, op, lpc, lq, lacc, lcur, lconc, phase, left>>
 
 DCRL(p) ==
   /\ pc[p] = "d_crl"
   /\ cacheRL' = [cacheRL EXCEPT ![S(p)] = NoList]
   /\ Goto(p, "d_ping") /\ Silent
-  /\ UNCHANGED <<conf, srvMan, srvTag, srvIdx, feat, cacheArt, cacheIdx, mu, op, obj, lpc, lq, lacc, lcur, phase, left>>
+  /\ UNCHANGED <<conf, srvMan, srvTag, srvIdx, feat, cacheArt, cacheIdx, mu, op, obj, lpc, lq, lacc, lcur, lconc, phase, left>>
 
 \* where the call continues once it knows whether the registry has the API
 AfterPing(p, f) == IF f = "yes" THEN "d_unl" ELSE IF LockDel /\ ~LockDelEarly THEN "d_lock" ELSE "d_gettag_rq"
 DPing(p) ==
   /\ pc[p] = "d_ping"
   /\ Goto(p, IF feat = "unknown" THEN "d_ping_rq" ELSE AfterPing(p, feat)) /\ Silent
-  /\ UNCHANGED <<conf, srvMan, srvTag, srvIdx, feat, cacheRL, cacheArt, cacheIdx, mu, op, obj, lpc, lq, lacc, lcur, phase, left>>
+  /\ UNCHANGED <<conf, srvMan, srvTag, srvIdx, feat, cacheRL, cacheArt, cacheIdx, mu, op, obj, lpc, lq, lacc, lcur, lconc, phase, left>>
 
 DPingRq(p) ==
   /\ pc[p] = "d_ping_rq"
   /\ feat' = IF conf.mode = "api" THEN "yes" ELSE "no"
   /\ Goto(p, AfterPing(p, feat')) /\ Silent
-  /\ UNCHANGED <<conf, srvMan, srvTag, srvIdx, cacheRL, cacheArt, cacheIdx, mu, op, obj, lpc, lq, lacc, lcur, phase, left>>
+  /\ UNCHANGED <<conf, srvMan, srvTag, srvIdx, cacheRL, cacheArt, cacheIdx, mu, op, obj, lpc, lq, lacc, lcur, lconc, phase, left>>
 
 DLock(p) ==
   /\ pc[p] = "d_lock"
   /\ mu = "" /\ mu' = p
   /\ Goto(p, IF LockDelEarly THEN "d_crl" ELSE "d_gettag_rq") /\ Silent
-  /\ UNCHANGED <<conf, srvMan, srvTag, srvIdx, feat, cacheRL, cacheArt, cacheIdx, op, obj, lpc, lq, lacc, lcur, phase, left>>
+  /\ UNCHANGED <<conf, srvMan, srvTag, srvIdx, feat, cacheRL, cacheArt, cacheIdx, op, obj, lpc, lq, lacc, lcur, lconc, phase, left>>
 
 DGetTagRq(p) ==
   /\ pc[p] = "d_gettag_rq"
@@ -282,13 +285,13 @@ DGetTagRq(p) ==
        [] OTHER ->             \* dummy image in the tag: not an OCI index, the delete fails
             /\ Goto(p, "d_fail") /\ Silent
             /\ UNCHANGED <<cacheIdx, obj>>
-  /\ UNCHANGED <<conf, srvMan, srvTag, srvIdx, feat, cacheRL, cacheArt, mu, op, lpc, lq, lacc, lcur, phase, left>>
+  /\ UNCHANGED <<conf, srvMan, srvTag, srvIdx, feat, cacheRL, cacheArt, mu, op, lpc, lq, lacc, lcur, lconc, phase, left>>
 
 DFail(p) ==
   /\ pc[p] = "d_fail"
   /\ Unlock(p)
   /\ Finish(p, "err", cacheIdx, obj[p].v)
-  /\ UNCHANGED <<conf, srvMan, srvTag, srvIdx, feat, cacheRL, cacheArt, op, lpc, lq, lacc, lcur, phase, left>>
+  /\ UNCHANGED <<conf, srvMan, srvTag, srvIdx, feat, cacheRL, cacheArt, op, lpc, lq, lacc, lcur, lconc, phase, left>>
 
 DTagDelRq(p) ==
   /\ pc[p] = "d_tagdel_rq"
@@ -296,24 +299,24 @@ DTagDelRq(p) ==
      THEN srvTag' = [srvTag EXCEPT ![S(p)] = NoTag] /\ Goto(p, "d_unl")
      ELSE UNCHANGED srvTag /\ Goto(p, "d_tdhead_rq")
   /\ Silent
-  /\ UNCHANGED <<conf, srvMan, srvIdx, feat, cacheRL, cacheArt, cacheIdx, mu, op, obj, lpc, lq, lacc, lcur, phase, left>>
+  /\ UNCHANGED <<conf, srvMan, srvIdx, feat, cacheRL, cacheArt, cacheIdx, mu, op, obj, lpc, lq, lacc, lcur, lconc, phase, left>>
 
 DTdHeadRq(p) ==
   /\ pc[p] = "d_tdhead_rq"
   /\ Goto(p, IF srvTag[S(p)].k = "none" THEN "d_puttag_rq" ELSE "d_tdput_rq") /\ Silent
-  /\ UNCHANGED <<conf, srvMan, srvTag, srvIdx, feat, cacheRL, cacheArt, cacheIdx, mu, op, obj, lpc, lq, lacc, lcur, phase, left>>
+  /\ UNCHANGED <<conf, srvMan, srvTag, srvIdx, feat, cacheRL, cacheArt, cacheIdx, mu, op, obj, lpc, lq, lacc, lcur, lconc, phase, left>>
 
 DTdPutRq(p) ==
   /\ pc[p] = "d_tdput_rq"
   /\ srvTag' = [srvTag EXCEPT ![S(p)] = TmpTag(p)]
   /\ Goto(p, "d_tdrm_rq") /\ Silent
-  /\ UNCHANGED <<conf, srvMan, srvIdx, feat, cacheRL, cacheArt, cacheIdx, mu, op, obj, lpc, lq, lacc, lcur, phase, left>>
+  /\ UNCHANGED <<conf, srvMan, srvIdx, feat, cacheRL, cacheArt, cacheIdx, mu, op, obj, lpc, lq, lacc, lcur, lconc, phase, left>>
 
 DTdRmRq(p) ==
   /\ pc[p] = "d_tdrm_rq"
   /\ srvTag' = [s \in Subj |-> IF srvTag[s] = TmpTag(p) THEN NoTag ELSE srvTag[s]]
   /\ Goto(p, "d_unl") /\ Silent
-  /\ UNCHANGED <<conf, srvMan, srvIdx, feat, cacheRL, cacheArt, cacheIdx, mu, op, obj, lpc, lq, lacc, lcur, phase, left>>
+  /\ UNCHANGED <<conf, srvMan, srvIdx, feat, cacheRL, cacheArt, cacheIdx, mu, op, obj, lpc, lq, lacc, lcur, lconc, phase, left>>
 
 DPutTagRq(p) ==
   /\ pc[p] = "d_puttag_rq"
@@ -321,7 +324,7 @@ DPutTagRq(p) ==
   /\ srvIdx' = srvIdx \cup {obj[p].v}
   /\ cacheIdx' = IF Cache THEN Upd(cacheIdx, obj[p].v, RefEnt(p)) ELSE cacheIdx
   /\ Goto(p, "d_unl") /\ Silent
-  /\ UNCHANGED <<conf, srvMan, feat, cacheRL, cacheArt, mu, op, obj, lpc, lq, lacc, lcur, phase, left>>
+  /\ UNCHANGED <<conf, srvMan, feat, cacheRL, cacheArt, mu, op, obj, lpc, lq, lacc, lcur, lconc, phase, left>>
 
 \* referrerDelete returns (deferred Unlock), ManifestDelete drops the artifact from cacheMan
 DUnl(p) ==
@@ -329,13 +332,13 @@ DUnl(p) ==
   /\ Unlock(p)
   /\ cacheArt' = cacheArt \ {A(p)}
   /\ Goto(p, "d_delete_rq") /\ Silent
-  /\ UNCHANGED <<conf, srvMan, srvTag, srvIdx, feat, cacheRL, cacheIdx, op, obj, lpc, lq, lacc, lcur, phase, left>>
+  /\ UNCHANGED <<conf, srvMan, srvTag, srvIdx, feat, cacheRL, cacheIdx, op, obj, lpc, lq, lacc, lcur, lconc, phase, left>>
 
 DDeleteRq(p) ==
   /\ pc[p] = "d_delete_rq"
   /\ srvMan' = srvMan \ {A(p)}
   /\ Finish(p, IF A(p) \in srvMan THEN "ok" ELSE "err", cacheIdx, obj[p].v)
-  /\ UNCHANGED <<conf, srvTag, srvIdx, feat, cacheRL, cacheArt, mu, op, lpc, lq, lacc, lcur, phase, left>>
+  /\ UNCHANGED <<conf, srvTag, srvIdx, feat, cacheRL, cacheArt, mu, op, lpc, lq, lacc, lcur, lconc, phase, left>>
 
 \* --------------------------------------------- ocidir: the whole call under o.mu
 ORun(p) ==
@@ -355,23 +358,26 @@ ORun(p) ==
                                                    ELSE IdxTag(Without(tv, a))]
                /\ srvIdx' = IF a \in Range(tv) /\ Without(tv, a) # <<>> THEN srvIdx \cup {Without(tv, a)} ELSE srvIdx
                /\ Finish(p, "ok", cacheIdx, <<>>)
-  /\ UNCHANGED <<conf, feat, cacheRL, cacheArt, mu, op, lpc, lq, lacc, lcur, phase, left>>
+  /\ UNCHANGED <<conf, feat, cacheRL, cacheArt, mu, op, lpc, lq, lacc, lcur, lconc, phase, left>>
 
 \* ------------------------------------------------------ quiescent observation
 Quiesce ==
   /\ AllIdle /\ lpc = "idle" /\ phase = "run"
   /\ phase' = "obs"
   /\ out' = [ev |-> "stored", set |-> srvMan]
-  /\ UNCHANGED <<conf, srvMan, srvTag, srvIdx, feat, cacheRL, cacheArt, cacheIdx, mu, pc, op, obj, lpc, lq, lacc, lcur, left>>
+  /\ UNCHANGED <<conf, srvMan, srvTag, srvIdx, feat, cacheRL, cacheArt, cacheIdx, mu, pc, op, obj, lpc, lq, lacc, lcur, lconc, left>>
 
 ListEv(s, f, descs, err) ==
   LET r == Sel(descs, f) IN
   [ev |-> "list", s |-> s, f |-> f, res |-> r, types |-> [i \in 1..Len(r) |-> Type[r[i]]],
    anns |-> [i \in 1..Len(r) |-> Ann[r[i]]], err |-> err]
 
+\* a listing that overlapped a call reports nothing to the monitor
+Tell(e) == out' = IF lconc THEN Quiet ELSE e
+
 ListStart(s, f) ==
-  /\ phase = "obs" /\ lpc = "idle"
-  /\ lq' = [s |-> s, f |-> f] /\ lacc' = <<>> /\ lcur' = 0
+  /\ lpc = "idle" /\ (phase = "obs" \/ (ListConc /\ ~AllIdle))
+  /\ lq' = [s |-> s, f |-> f] /\ lacc' = <<>> /\ lcur' = 0 /\ lconc' = ~AllIdle
   /\ lpc' = IF Reg THEN "l_cache" ELSE "l_oci"
   /\ Silent
   /\ UNCHANGED <<conf, srvMan, srvTag, srvIdx, feat, cacheRL, cacheArt, cacheIdx, mu, pc, op, obj, phase, left>>
@@ -379,9 +385,9 @@ ListStart(s, f) ==
 LCache ==
   /\ lpc = "l_cache"
   /\ IF Cache /\ cacheRL[lq.s].k = "list"
-     THEN lpc' = "idle" /\ out' = ListEv(lq.s, lq.f, cacheRL[lq.s].v, "")
+     THEN lpc' = "idle" /\ Tell(ListEv(lq.s, lq.f, cacheRL[lq.s].v, ""))
      ELSE lpc' = (IF feat = "no" THEN "l_tag_rq" ELSE "l_api_rq") /\ Silent
-  /\ UNCHANGED <<conf, srvMan, srvTag, srvIdx, feat, cacheRL, cacheArt, cacheIdx, mu, pc, op, obj, lq, lacc, lcur, phase, left>>
+  /\ UNCHANGED <<conf, srvMan, srvTag, srvIdx, feat, cacheRL, cacheArt, cacheIdx, mu, pc, op, obj, lq, lacc, lcur, lconc, phase, left>>
 
 \* one page of the referrers API: the matching manifests after the cursor, in key order
 ApiAll == LET m == {a \in srvMan : conf.subj[a] = lq.s /\ (IsTypeFilter(lq.f) => Match(a, lq.f)) /\ Ord[a] > lcur}
@@ -400,34 +406,34 @@ LApiRq ==
           /\ lpc' = IF n < Len(rest) THEN "l_api_rq" ELSE "l_api_done"
           /\ UNCHANGED feat
   /\ Silent
-  /\ UNCHANGED <<conf, srvMan, srvTag, srvIdx, cacheRL, cacheArt, cacheIdx, mu, pc, op, obj, lq, phase, left>>
+  /\ UNCHANGED <<conf, srvMan, srvTag, srvIdx, cacheRL, cacheArt, cacheIdx, mu, pc, op, obj, lq, lconc, phase, left>>
 
 LApiDone ==
   /\ lpc = "l_api_done"
   /\ feat' = IF feat = "unknown" THEN "yes" ELSE feat
   /\ cacheRL' = IF Cache /\ ~IsTypeFilter(lq.f) THEN [cacheRL EXCEPT ![lq.s] = AList(lacc)] ELSE cacheRL
   /\ lpc' = "idle"
-  /\ out' = ListEv(lq.s, lq.f, lacc, "")
-  /\ UNCHANGED <<conf, srvMan, srvTag, srvIdx, cacheArt, cacheIdx, mu, pc, op, obj, lq, lacc, lcur, phase, left>>
+  /\ Tell(ListEv(lq.s, lq.f, lacc, ""))
+  /\ UNCHANGED <<conf, srvMan, srvTag, srvIdx, cacheArt, cacheIdx, mu, pc, op, obj, lq, lacc, lcur, lconc, phase, left>>
 
 LTagRq ==
   /\ lpc = "l_tag_rq"
   /\ LET t == srvTag[lq.s] IN
      IF t.k = "tmp"
-     THEN /\ out' = ListEv(lq.s, lq.f, <<>>, "not an OCI index")
+     THEN /\ Tell(ListEv(lq.s, lq.f, <<>>, "not an OCI index"))
           /\ UNCHANGED <<cacheRL, cacheIdx>>
      ELSE LET d == IF t.k = "idx" THEN t.v ELSE <<>> IN
           /\ cacheIdx' = IF Cache /\ t.k = "idx" THEN Upd(cacheIdx, t.v, ValEnt(t.v)) ELSE cacheIdx
           /\ cacheRL' = IF Cache THEN [cacheRL EXCEPT ![lq.s] = AList(d)] ELSE cacheRL
-          /\ out' = ListEv(lq.s, lq.f, d, "")
+          /\ Tell(ListEv(lq.s, lq.f, d, ""))
   /\ lpc' = "idle"
-  /\ UNCHANGED <<conf, srvMan, srvTag, srvIdx, feat, cacheArt, mu, pc, op, obj, lq, lacc, lcur, phase, left>>
+  /\ UNCHANGED <<conf, srvMan, srvTag, srvIdx, feat, cacheArt, mu, pc, op, obj, lq, lacc, lcur, lconc, phase, left>>
 
 LOci ==
   /\ lpc = "l_oci"
   /\ lpc' = "idle"
-  /\ out' = ListEv(lq.s, lq.f, IF srvTag[lq.s].k = "idx" THEN srvTag[lq.s].v ELSE <<>>, "")
-  /\ UNCHANGED <<conf, srvMan, srvTag, srvIdx, feat, cacheRL, cacheArt, cacheIdx, mu, pc, op, obj, lq, lacc, lcur, phase, left>>
+  /\ Tell(ListEv(lq.s, lq.f, IF srvTag[lq.s].k = "idx" THEN srvTag[lq.s].v ELSE <<>>, ""))
+  /\ UNCHANGED <<conf, srvMan, srvTag, srvIdx, feat, cacheRL, cacheArt, cacheIdx, mu, pc, op, obj, lq, lacc, lcur, lconc, phase, left>>
 
 \* raw content of the fall-back tag
 TagObs(s) ==
@@ -443,7 +449,7 @@ Fetch(d) ==
   /\ phase = "obs" /\ lpc = "idle" /\ d \in srvIdx
   /\ cacheIdx' = IF Reg /\ Cache /\ d \notin DOMAIN cacheIdx THEN Upd(cacheIdx, d, ValEnt(d)) ELSE cacheIdx
   /\ out' = [ev |-> "fetch", asked |-> d, got |-> FetchGot(d)]
-  /\ UNCHANGED <<conf, srvMan, srvTag, srvIdx, feat, cacheRL, cacheArt, mu, pc, op, obj, lpc, lq, lacc, lcur, phase, left>>
+  /\ UNCHANGED <<conf, srvMan, srvTag, srvIdx, feat, cacheRL, cacheArt, mu, pc, op, obj, lpc, lq, lacc, lcur, lconc, phase, left>>
 
 \* ---------------------------------------------------------------- next-state
 ReqPcs == {"p_put_rq", "p_get_rq", "p_puttag_rq", "d_get_rq", "d_ping_rq", "d_gettag_rq", "d_tagdel_rq",
